@@ -144,3 +144,66 @@ def replay_numeric_op(spec, vals, obligation, desc):
 
 
 R.register('numeric_op', replay_numeric_op)
+
+
+# ---- C11 / C06: invocation glue replayed natively with a recording guest function
+INV_KINDS = {   # kind -> (application parameter type, guest type seen by the callee, how the C++ argument is built)
+    'long_plain': ('long', 'int32_t', 'plain'), 'long_tainted': ('long', 'int32_t', 'tainted'), 'long_opaque': ('long', 'int32_t', 'opaque'),
+    'ulong_tainted': ('unsigned long', 'uint32_t', 'tainted'), 'int_plain': ('int', 'int32_t', 'plain'),
+    'ptr_tainted': ('int*', 'uint32_t', 'ptr'), 'nullptr': ('int*', 'uint32_t', 'null'), 'fnptr_tainted': ('int(*)(long)', 'uint32_t', 'skip'),
+}
+INV_RET = {'void': ('void', None), 'int': ('int', 'int32_t'), 'long': ('long', 'int32_t'), 'ptr': ('int*', 'uint32_t')}
+
+
+def replay_invoke(spec, vals, obligation, desc):
+    pk, rk = spec['params'], spec['ret']
+    if any(INV_KINDS[k][2] == 'skip' for k in pk):
+        raise ValueError('function-pointer arguments are not replayed')
+    n = len(pk)
+    at = [INV_KINDS[k][0] for k in pk]
+    gt = [INV_KINDS[k][1] for k in pk]
+    rt, rg = INV_RET[rk]
+    body = R.PRE + 'static int g_calls = 0; static long long g_seen[16];\n'
+    body += 'static %s rec(%s) { g_calls++; %s %s }\n' % (rg or 'void', ', '.join('%s a%d' % (gt[i], i) for i in range(n)),
+                                                         ' '.join('g_seen[%d] = (long long)a%d;' % (i, i) for i in range(n)),
+                                                         ('return (%s)%s;' % (rg, R._lit(R._int(vals, 'in_guest_ret'), 'long long'))) if rg else '')
+    body += 'int main(){\n' + R.backend_setup(vals) + R.sandbox_setup(vals)
+    fits = []
+    for i, k in enumerate(pk):
+        v = R._int(vals, 'in_a%d' % i)
+        a, g, how = INV_KINDS[k]
+        if how == 'plain':
+            body += '  %s a%d = %s;\n' % (a, i, R._lit(v, a))
+        elif how in ('tainted', 'opaque'):
+            w = 'tainted' if how == 'tainted' else 'tainted_opaque'
+            body += '  %s<%s, vsbx> a%d; { %s v = %s; std::memcpy(&a%d, &v, sizeof(v)); }\n' % (w, a, i, a, R._lit(v, a), i)
+        elif how == 'ptr':
+            body += '  tainted<int*, vsbx> a%d; { uintptr_t v = %dULL; std::memcpy(&a%d, &v, sizeof(v)); }\n' % (i, v, i)
+        else:
+            body += '  std::nullptr_t a%d = nullptr;\n' % i
+        if how in ('plain', 'tainted', 'opaque'):
+            lo, hi = (0, 2 ** 32 - 1) if g == 'uint32_t' else (-(2 ** 31), 2 ** 31 - 1)
+            fits.append(lo <= v <= hi)
+            body += '  pr("expect%d", (mathint)%s);\n' % (i, R._lit(v, 'long long' if v < 2 ** 63 else 'unsigned long long'))
+        elif how == 'ptr':
+            body += '  pr("expect%d", %dULL == 0 ? (mathint)0 : (mathint)%dULL - (mathint)vsbx::region_base[sb.slot]);\n' % (i, v, v)
+        else:
+            body += '  pr("expect%d", (mathint)0);\n' % i
+    call = 'sb.INTERNAL_invoke_with_func_ptr<%s(%s)>("f", reinterpret_cast<void*>(&rec)%s)' % (rt, ', '.join(at), ''.join(', a%d' % i for i in range(n)))
+    body += '  int aborted = 0;\n  try { %s; } catch (const std::runtime_error&) { aborted = 1; }\n' % call
+    body += '  std::printf("aborted=%d\\ncalls=%d\\n", aborted, g_calls);\n'
+    for i in range(n):
+        body += '  pr("seen%d", (mathint)(%s)g_seen[%d]);\n' % (i, gt[i], i)
+    body += '  return 0; }\n'
+    all_fit = all(fits)
+
+    def judge(d):
+        if d.get('aborted') == '1':
+            return all_fit and d.get('calls') == '0' and 'precondition' in obligation   # aborted although every argument is representable
+        if d.get('calls') != '1':
+            return True
+        return any(d.get('seen%d' % i) != d.get('expect%d' % i) for i in range(n))
+    return body, judge
+
+
+R.register('invoke', replay_invoke)
